@@ -1355,6 +1355,10 @@ class Evaluator:
                 pyt = {"str": str, "int": int, "bool": bool, "float": float, "tuple": tuple, "list": list, "dict": dict}.get(spec.name)
                 if pyt is not None and isinstance(v, Const):
                     return Const(isinstance(v.value, pyt))
+                if isinstance(v, Str) and pyt is not None:
+                    return Const(pyt is str)
+            if isinstance(v, Str) and isinstance(spec, Sym) and spec.kind == "extern":
+                return Const(False)   # an abstract string is not an Enum / date / UUID instance
             if isinstance(v, Sym) and v.kind == "call" and v.args and v.args[0] in (".isoformat", "str", ".replace") and isinstance(spec, Builtin):
                 return Const(spec.name == "str")
             return Sym("op", ("isinstance", v, spec))
